@@ -27,8 +27,11 @@ def schedule_of(run, limit=40):
 
 
 def validate_executions(chk, pid, work, spec, text, runs, consts, invariants, properties=(), what="", chunks=4,
-                        timeout=1500, by_action=True, go_error_is_violation=True, **kw):
-    """runs: output of tracegen.load_steps. Every run is validated as a behaviour of <spec> (each step must
+                        timeout=1500, by_action=True, go_error_is_violation=True, conform=True, **kw):
+    """conform=True (C02): every step must be a step of the spec. conform=False (P-level checks): the
+    recorded real-code states are judged by the invariants / action properties only; a state TLC cannot
+    take (e.g. an initial state that is not the spec's) is drift, not a violation.
+    runs: output of tracegen.load_steps. Every run is validated as a behaviour of <spec> (each step must
     be a step of the spec's Next -- by the logged process/label when by_action -- and every invariant
     must hold in every state). Go-side errors (assertion failures, panics of generated code) are violations."""
     variables = T.extract_vars(text)
@@ -45,7 +48,7 @@ def validate_executions(chk, pid, work, spec, text, runs, consts, invariants, pr
         else:
             data.append(list(r["states"]))
     res = T.validate_runs(work, spec, variables, data, consts, list(invariants), list(properties), chunks=chunks,
-                          timeout=timeout, labels=labels, **kw)
+                          timeout=timeout, labels=labels, conform=conform, **kw)
     chk.states += res["states"]
     chk.transitions += res["transitions"]
     chk.traces += res["accepted"]
@@ -56,6 +59,9 @@ def validate_executions(chk, pid, work, spec, text, runs, consts, invariants, pr
         name = "step-not-in-spec" if rj["kind"] == "stuck" else next((i for i in list(invariants) + list(properties) if i in rj["text"]), "property")
         steps = [l for l in r["lines"] if l["e"] == "step"]
         at = steps[rj["state_index"] - 1] if 0 < rj["state_index"] <= len(steps) else {}
+        if rj["kind"] == "stuck" and not conform:
+            chk.drift.append({"what": what, "state_index": rj["state_index"], "label": at.get("label"), "text": rj["text"]})
+            continue
         chk.violation("%s:%s:%s:%s" % (pid, name, what, at.get("label")),
                       "%s: %s at state %d (process %s, label %s) of a real-code execution" % (
                           what, rj["text"], rj["state_index"], at.get("proc"), at.get("label")),
@@ -98,3 +104,138 @@ def guided(chk, pid, drv, work, system, n, args, behaviours, what, max_report=3,
                               what, b[k]["action"] if k < len(b) else "?", k, r["diverge"].get("msg", "")[:300]),
                           {"what": what, "behaviour": [x["action"] for x in b[:k + 1]], "target_state": r["diverge"].get("state")})
     return followed, len(runs), out
+
+
+# ----------------------------------------------------------------------------- system tables
+
+def load_tables():
+    d = os.path.join(V.VERIF, "systems")
+    out = []
+    for f in sorted(os.listdir(d)):
+        if f.endswith(".json"):
+            out.append(json.load(open(os.path.join(d, f))))
+    return out
+
+
+def _args_dict(args):
+    out = {}
+    for kv in (args or "").split(","):
+        if "=" in kv:
+            k, v = kv.split("=", 1)
+            out[k] = v
+    return out
+
+
+def subst_consts(table, n, args="", override=None):
+    a = _args_dict(args)
+    out = {}
+    for k, v in table["consts"].items():
+        v = v.replace("{n}", str(n))
+        while "{arg:" in v:
+            i = v.index("{arg:")
+            j = v.index("}", i)
+            parts = v[i + 5:j].split(":")
+            val = a.get(parts[0], "0")
+            if len(parts) == 3:  # {arg:name:TRUEVAL:FALSEVAL}
+                val = parts[1] if val not in ("0", "") else parts[2]
+            v = v[:i] + val + v[j + 1:]
+        out[k] = v
+    if override:
+        out.update(override)
+    return out
+
+
+def prepare_spec(chk, table, work):
+    """Copy the repository spec into work, applying the table's named rewrites (conformance only)."""
+    import shutil
+    src = os.path.join(V.REPO, table["spec"])
+    if not os.path.exists(src):
+        raise V.Inconclusive("spec %s not found" % src)
+    os.makedirs(work, exist_ok=True)
+    dst = os.path.join(work, os.path.basename(src))
+    text = open(src).read()
+    for rw in table.get("spec_rewrites", []):
+        if rw["from"] not in text:
+            chk.gaps.append("%s: rewrite %r no longer applies" % (table["name"], rw["from"]))
+        text = text.replace(rw["from"], rw["to"])
+    # extra modules next to the spec that it EXTENDS (rare)
+    for extra in table.get("extra_modules", []):
+        shutil.copy(os.path.join(V.REPO, extra), work)
+    open(dst, "w").write(text)
+    return text
+
+
+def conformance(chk, pid, table, drv, tier, do_guided=True):
+    """C02 for one spec/Go pair: (a) complete graph of the generated code == TLC's graph of the spec
+    (every Go edge a spec step, same number of states and edges); (b) seeded executions under the real
+    Run loop, every step a step of the spec; (c) TLC behaviours followed by the generated code."""
+    name = table["name"]
+    work = os.path.join(chk.tmp, "spec-" + name)
+    text = prepare_spec(chk, table, work)
+    module = table["module"]
+    variables = T.extract_vars(text)
+    labels = T.extract_labels(text)
+    stats = {"bfs": [], "random": [], "guided": []}
+    for cfg in table.get("bfs", {}).get(tier, []):
+        n = cfg["n"]
+        args = cfg.get("args", "")
+        out = drive(chk, drv, name, n, "bfs", 0, cfg.get("max_states", 300000), args=args, tag="-bfs")
+        g = T.load_graph(out)
+        for e in g["errors"]:
+            chk.violation("%s:%s:go-error:%s" % (pid, name, e.get("label")),
+                          "%s n=%d: generated code failed from a reachable state at label %s: %s" % (name, n, e.get("label"), e.get("msg")), e)
+        walks = T.graph_walks(g)
+        cs = subst_consts(table, n, args, cfg.get("consts_override"))
+        res = T.validate_runs(work, module, variables, walks, cs, [], [], chunks=8, timeout=2400)
+        chk.states += res["states"]; chk.transitions += res["transitions"]; chk.traces += res["accepted"]
+        for e in res["errors"]:
+            chk.inconclusive.append("%s bfs n=%d: %s" % (name, n, e[-600:]))
+        for rj in res["rejected"]:
+            w = walks[rj["run_index"]]
+            chk.violation("%s:%s:step-not-in-spec:bfs" % (pid, name),
+                          "%s n=%d: a committed step of the generated code is not a step of the specification (state %d of a walk of the Go state graph)" % (name, n, rj["state_index"]),
+                          {"system": name, "n": n, "pre_state": w[rj["state_index"] - 2] if rj["state_index"] >= 2 else None,
+                           "post_state": w[rj["state_index"] - 1] if rj["state_index"] <= len(w) else None})
+        # TLC's own graph
+        cfgname = "graph_n%d.cfg" % n
+        open(os.path.join(work, cfgname), "w").write("CONSTANTS\n" + "".join("  %s = %s\n" % kv for kv in cs.items()) +
+                                                      "INIT Init\nNEXT Next\nCHECK_DEADLOCK FALSE\n" +
+                                                      ("CONSTRAINT %s\n" % cfg["constraint"] if cfg.get("constraint") else ""))
+        dot = os.path.join(work, "graph_n%d.dot" % n)
+        r2 = V.tlc(work, module, cfg=cfgname, workers=1, timeout=2400, deadlock=False, dump=dot)
+        chk.add_tlc("%s state graph n=%d" % (name, n), r2)
+        if r2.ok:
+            ns, ne = T.dot_counts(dot)
+            gs, ge = g["summary"]["states"], g["summary"]["edges"]
+            stats["bfs"].append({"n": n, "tlc": [ns, ne], "go": [gs, ge], "walks": len(walks)})
+            if g["summary"].get("complete") and not res["rejected"] and (ns, ne) != (gs, ge):
+                chk.violation("%s:%s:graph-mismatch:n=%d" % (pid, name, n),
+                              "%s n=%d: the generated code reaches %d states / %d transitions, the specification %d / %d; every Go transition is a spec transition, so the Go cannot take some step the spec prescribes" % (name, n, gs, ge, ns, ne),
+                              {"system": name, "n": n, "go": [gs, ge], "tlc": [ns, ne]})
+        if walks:
+            chk.sample({"system": name, "kind": "graph walk", "n": n, "first_states": walks[-1][:2]})
+    for cfg in table.get("random", {}).get(tier, []):
+        n, args = cfg["n"], cfg.get("args", "")
+        out = drive(chk, drv, name, n, cfg.get("policy", "random"), cfg["runs"], cfg["steps"], args=args, tag="-rnd")
+        rs = T.load_steps(out)
+        r = validate_executions(chk, pid, work, module, text, rs, subst_consts(table, n, args, cfg.get("consts_override")), [], [],
+                                what="%s n=%d" % (name, n), chunks=min(6, max(1, len(rs))), timeout=2400, conform=True)
+        stats["random"].append({"n": n, "runs": len(rs), "accepted": r["accepted"], "states": sum(len(x["states"]) for x in rs)})
+        if rs:
+            chk.sample({"system": name, "kind": "execution under Run", "n": n, "seed": rs[0]["meta"].get("seed"), "schedule_prefix": schedule_of(rs[0], 10)})
+    if do_guided:
+        for cfg in table.get("guided", {}).get(tier, []):
+            n, args = cfg["n"], cfg.get("args", "")
+            cs = subst_consts(table, n, args, cfg.get("consts_override"))
+            cfgname = "sim_n%d.cfg" % n
+            open(os.path.join(work, cfgname), "w").write("CONSTANTS\n" + "".join("  %s = %s\n" % kv for kv in cs.items()) +
+                                                          "INIT Init\nNEXT Next\nCHECK_DEADLOCK FALSE\n" +
+                                                          ("CONSTRAINT %s\n" % cfg["constraint"] if cfg.get("constraint") else ""))
+            res, behs = T.simulate_behaviours(work, module, cfgname, cfg["num"], cfg["depth"], chk.seed, timeout=1500, prefix="sim%d" % n)
+            chk.add_tlc("%s simulation behaviours n=%d" % (name, n), res)
+            behs = [b for b in behs if b]
+            if behs:
+                followed, total, _ = guided(chk, pid, drv, work, name, n, args, behs, "%s n=%d" % (name, n))
+                chk.traces += followed
+                stats["guided"].append({"n": n, "followed": followed, "total": total})
+    return stats
